@@ -261,8 +261,11 @@ def handle(line: str) -> str:
 
             def _alarm(signum, frame):
                 raise TimeoutError("request timed out")
-            signal.signal(signal.SIGALRM, _alarm)
-            signal.alarm(int(os.environ.get("VERIF_REQ_TIMEOUT", "30")))
+            import threading
+            _main = threading.current_thread() is threading.main_thread()
+            if _main:
+                signal.signal(signal.SIGALRM, _alarm)
+                signal.alarm(int(os.environ.get("VERIF_REQ_TIMEOUT", "30")))
             import inspect
             extra = {}
             for pn, pp in inspect.signature(fn).parameters.items():
@@ -282,7 +285,8 @@ def handle(line: str) -> str:
             except Exception as e:  # noqa
                 return "ERR " + err_name(e)
             finally:
-                signal.alarm(0)
+                if _main:
+                    signal.alarm(0)
             return "OK " + pydump.dump(v)
         except Exception as e:  # noqa
             return "BAD-REQUEST " + repr(e)
@@ -688,7 +692,8 @@ def handle(line: str) -> str:
             return "OK C[" + ",".join("%s:%s:%s" % (so(c.table_name), so(c.column_name), "-" if c.column_idx is None else str(c.column_idx)) for c in r) + "]"
         except Exception as e:  # noqa
             return "BAD-REQUEST " + repr(e)
-    if cmd == "LINEAGE":
+    if cmd in ("LINEAGE", "LINEAGEO"):
+        ordered = cmd == "LINEAGEO"            # C12: keep the order and multiplicity of the source lists as returned
         try:
             from metasequoia_sql import SQLParser, SQLType
             from metasequoia_sql.analyzer import CreateTableStatementGetter
@@ -728,6 +733,8 @@ def handle(line: str) -> str:
                 return "%s:%s:%s" % (so(x.schema_name), so(x.table_name), so(x.column_name))
 
             def show_srcs(l):
+                if ordered:
+                    return "[" + ",".join(show_src(x) for x in l) + "]"
                 return "[" + ",".join(sorted(set(show_src(x) for x in l))) + "]"
             g = Getter()
             an = TableLineageAnalyzer(g)
@@ -814,6 +821,30 @@ def handle(line: str) -> str:
 
 def main():
     out = sys.stdout
+    if "--threads" in args:
+        # C12: all requests are handled from N threads that start together; answers are printed in request order
+        import threading
+        n = int(args[args.index("--threads") + 1])
+        lines = [l.rstrip("\n") for l in sys.stdin]
+        answers = [None] * len(lines)
+        barrier = threading.Barrier(n)
+
+        def work(k):
+            barrier.wait()
+            for i in range(k, len(lines), n):
+                try:
+                    answers[i] = handle(lines[i])
+                except BaseException as e:  # noqa
+                    answers[i] = "THREAD-EXC " + repr(e)
+        ts = [threading.Thread(target=work, args=(k,)) for k in range(n)]
+        for t in ts:
+            t.start()
+        for t in ts:
+            t.join()
+        for a in answers:
+            out.write((a if a is not None else "NOT-RUN") + "\n")
+        out.flush()
+        return
     for line in sys.stdin:
         out.write(handle(line.rstrip("\n")) + "\n")
     out.flush()
